@@ -177,3 +177,38 @@ func remountAfterExportChange(r *rng.R) lcw.Input {
 	in.CLI = 1 + r.Intn(6)
 	return in
 }
+
+// spelledConfig: the layers (or exports) directory is configured as an ABSOLUTE path in a spelling
+// that is not the canonical one (trailing or doubled slash, "/./"), and a fresh base layer imports a
+// directory inside the layers directory that does not exist yet (the skeleton's $$base/packages,
+// which mount creates): the layer is mountable, mount works, list shows it mounted
+func spelledConfig(r *rng.R) lcw.Input {
+	ws := lcw.WorldSpec{BaseName: r.Pick([]string{"b", "lc root"}), HostLayout: "plain"}
+	cfg := lcw.StdCfg(ws.BaseName)
+	ws.HostDirs = []string{cfg.Base + "/host/repos"}
+	imps := []lcw.Imp{{Fstype: "rbind", Source: "/dev", Mount: "/dev"}, {Fstype: "proc", Source: "/proc", Mount: "/proc"},
+		{Fstype: "rbind", Source: cfg.Base + "/host/repos", Mount: "/var/db/repos"},
+		{Fstype: "rbind", Source: r.Pick([]string{"$$base/packages", "$$self/packages", "$$self/generated"}), Mount: "/var/cache/binpkgs"}}
+	name := r.Pick([]string{"base1", "gcc", "x"})
+	ws.Layers = []lcw.LayerSpec{{Name: name, HasConfig: true, HasBuild: true, Minimal: true, Mountpoints: true, Imports: imps}}
+	top := name
+	if r.Chance(1, 2) {
+		ws.Layers = append(ws.Layers, lcw.LayerSpec{Name: "der", Base: name, HasConfig: true, HasBuild: true, Minimal: true,
+			Mountpoints: true, HasWork: true, HasUpper: true, Imports: imps[:3]})
+		top = "der"
+	}
+	in := lcw.BuildInput(ws)
+	key, abs := "LAYERS", cfg.Layers
+	if r.Chance(1, 4) {
+		key, abs = "EXPORTS", cfg.Exports
+	}
+	i := strings.LastIndexByte(abs, '/')
+	val := r.Pick([]string{abs + "/", abs[:i] + "/" + abs[i:], abs[:i] + "/." + abs[i:], abs + "/."})
+	in.Conf = cfg.Base + "/lc.conf"
+	in.ConfBase = true
+	in.FS = append(in.FS, lcw.Entry{Path: lcw.B(in.Conf), Kind: "f", Data: lcw.B("# site\n" + key + " = " + val + "\n")})
+	in.CLI = 1 + r.Intn(6)
+	in.Steps = append(in.Steps, step("list", "", "", false), step("mount", top, "", false), step("probe", "", "", false),
+		step("list", "", "", false), step("umount", "", "", true))
+	return in
+}
